@@ -7,6 +7,8 @@ func init() {
 		ID:    "C03",
 		Title: "@each/@for iterate in order with correct loop metadata, break/continue and @else",
 		Rules: []string{
+			"R-KEEP: a node a parse function returns is stored, passed on or returned on every path of its caller to a successful return",
+			"R-WALK: a recursive walk of the parsed tree (the evaluator; a collector of components or inserts) that reads one parser-filled statement-holding field of a node type reads all of them (@each has a body and an @else)",
 			"R-KINDS / R-OPTABLE: a nil slice converts to an empty array; postfix ++/-- yields a new object (no write through the operand)",
 			"R-LOOP (evaluator state): no field of an existing Evaluator is written while evaluating, except counter steps",
 			"R-BODYENTRY: every caller of the block parser, evaluated by cases on an abstract parser (token types as named unknowns), enters it only on a token it has looked at and that is not END / ELSE / ELSE_IF — an empty body is an empty block, not the enclosing construct's closer",
@@ -19,6 +21,8 @@ func init() {
 		NotDecided:  "TODO",
 		Assumptions: trustedBase,
 		Run: func(m *Model, s *Sink) {
+			m.RunKeepParsed(s, "R-KEEP") // the body and the @else of a loop that were parsed are in the tree
+			m.RunWalk(s, "R-WALK")       // a walk that descends into a construct descends into all of it
 			m.RunOpTable(s, "R-OPTABLE") // the post clause steps a fresh value, not the object its variable was copied from
 			m.RunKinds(s, "R-KINDS")     // a nil slice is an empty array: @each over it renders its @else
 			m.RunEvalState(s, "R-LOOP")  // evaluation keeps no flags between constructs
